@@ -18,14 +18,21 @@ import (
 	"github.com/honeycombio/refinery/logger"
 	"github.com/honeycombio/refinery/metrics"
 	"github.com/honeycombio/refinery/types"
-	"github.com/vmihailenco/msgpack/v5"
+	"github.com/tinylib/msgp/msgp"
 )
 
 // The samplers of spec/TraceKey.tla's constant Samplers.
 var c11SamplerNames = []string{"dynamic", "emadynamic", "emathroughput", "windowedthroughput", "totalthroughput"}
 
 // real field names for the model's data fields (deliberately not in the model's order)
-var c11FieldName = map[string]string{"a": "http.status_code", "b": "app.tenant"}
+// "z" is the model's ghost field: an ingest-time FieldList may name it, no span carries it
+var c11FieldName = map[string]string{"a": "http.status_code", "b": "app.tenant", "z": "http.route"}
+
+// c11Prov is a span's provenance (spec/TraceKey.tla, "Payload provenance").
+type c11Prov struct {
+	Kind string   `json:"kind"` // map | wire | ingest
+	Keys []string `json:"keys"` // ingest: the key fields of the sampler configured at ingest time
+}
 
 type c11Cfg struct {
 	Name  string   `json:"name"`
@@ -40,10 +47,11 @@ type c11Trace struct {
 }
 
 type c11Vec struct {
-	Kind string   `json:"kind"`
-	Cfg  c11Cfg   `json:"cfg"`
-	T    c11Trace `json:"t"`
-	U    c11Trace `json:"u"`
+	Kind string    `json:"kind"`
+	Cfg  c11Cfg    `json:"cfg"`
+	T    c11Trace  `json:"t"`
+	U    c11Trace  `json:"u"`
+	Prov []c11Prov `json:"prov"` // provenance of t's spans
 }
 
 // c11Value turns a value token of the model into the Go value a decoder would deliver.
@@ -80,10 +88,108 @@ func (c c11Cfg) fieldList() []string {
 	return fl
 }
 
-// c11Build concretises an abstract trace as a real types.Trace. With noise, the
-// spans also carry fields that are not configured and every second span is
-// backed by msgpack bytes (as it arrives from the wire) instead of a map.
-func c11Build(cfg config.Config, at c11Trace, noise bool, id string) (*types.Trace, error) {
+// c11Encode serializes a span body as a msgpack map. The order of the fields on the
+// wire is the sender's; it is made deterministic here (sorted, rotated by rot).
+func c11Encode(data map[string]any, rot int) ([]byte, error) {
+	keys := make([]string, 0, len(data))
+	for k := range data {
+		keys = append(keys, k)
+	}
+	sort.Strings(keys)
+	raw := msgp.AppendMapHeader(nil, uint32(len(keys)))
+	for i := range keys {
+		k := keys[(i+rot)%len(keys)]
+		raw = msgp.AppendString(raw, k)
+		var err error
+		if raw, err = msgp.AppendIntf(raw, data[k]); err != nil {
+			return nil, err
+		}
+	}
+	return raw, nil
+}
+
+// c11IngestUnmarshaler is what the router builds for a request while the sampler of
+// the destination is configured with the key fields `keys`: the real
+// types.NewCoreFieldsUnmarshaler over a configuration whose sampler has that FieldList.
+var c11Unmarshalers = map[string]types.CoreFieldsUnmarshaler{}
+
+func c11IngestUnmarshaler(keys []string, rootFirst bool) (types.CoreFieldsUnmarshaler, config.Config, error) {
+	var fl []string
+	for _, f := range keys {
+		name, ok := c11FieldName[f]
+		if !ok {
+			return types.CoreFieldsUnmarshaler{}, nil, fmt.Errorf("unknown key field %q", f)
+		}
+		fl = append(fl, name)
+	}
+	sort.Strings(fl)
+	if rootFirst && len(fl) > 0 {
+		// "root.f" in the ingest-time FieldList: f is extracted from every span all the same
+		fl[0] = config.RootPrefix + fl[0]
+	}
+	mc := &config.MockConfig{GetSamplerTypeVal: &config.DynamicSamplerConfig{FieldList: fl, SampleRate: 1}}
+	id := strings.Join(fl, "|")
+	if u, ok := c11Unmarshalers[id]; ok {
+		return u, mc, nil
+	}
+	u := types.NewCoreFieldsUnmarshaler(types.CoreFieldsUnmarshalerOptions{Config: mc, APIKey: "c11key", Env: "c11env", Dataset: "c11ds"})
+	c11Unmarshalers[id] = u
+	return u, mc, nil
+}
+
+// c11Payload builds the payload of one span with the given provenance the way the
+// real system does: "map" = NewPayload over a map (/1/events, gRPC); "wire" = msgpack
+// kept serialized with only the metadata extracted (OTLP path
+// UnmarshalMsgpEventMetadataOnly, or Payload.UnmarshalMsgpack); "ingest" = msgpack
+// decoded by the router's /1/batch and peer path (UnmarshalMsgpFirstEvent inside a
+// larger message) with the key fields of the sampler configured at ingest time.
+func c11Payload(cfg config.Config, data map[string]any, prov c11Prov, salt int) (types.Payload, error) {
+	switch prov.Kind {
+	case "map":
+		return types.NewPayload(cfg, data), nil
+	case "wire":
+		raw, err := c11Encode(data, salt)
+		if err != nil {
+			return types.Payload{}, err
+		}
+		p := types.NewPayload(cfg, nil)
+		if salt%2 == 0 {
+			return p, p.UnmarshalMsgpack(raw)
+		}
+		u, _, err := c11IngestUnmarshaler([]string{"a", "z"}, false) // its key fields are not used on this path
+		if err != nil {
+			return types.Payload{}, err
+		}
+		return p, u.UnmarshalMsgpEventMetadataOnly(raw, &p)
+	case "ingest":
+		raw, err := c11Encode(data, salt)
+		if err != nil {
+			return types.Payload{}, err
+		}
+		u, icfg, err := c11IngestUnmarshaler(prov.Keys, salt%2 == 1)
+		if err != nil {
+			return types.Payload{}, err
+		}
+		p := types.NewPayload(icfg, nil)
+		trailer := []byte{0x81, 0xa1, 'k', 0x01} // the next event of the batch
+		rest, err := u.UnmarshalMsgpFirstEvent(append(append([]byte{}, raw...), trailer...), &p)
+		if err != nil {
+			return types.Payload{}, err
+		}
+		if string(rest) != string(trailer) {
+			return types.Payload{}, fmt.Errorf("UnmarshalMsgpFirstEvent consumed %d bytes too many/few", len(trailer)-len(rest))
+		}
+		return p, nil
+	}
+	return types.Payload{}, fmt.Errorf("unknown provenance %q", prov.Kind)
+}
+
+// c11BuildProv concretises an abstract trace as a real types.Trace whose span i has
+// provenance prov[i]. With noise, the spans also carry fields that are not configured.
+func c11BuildProv(cfg config.Config, at c11Trace, prov []c11Prov, noise bool, id string, salt int) (*types.Trace, error) {
+	if len(prov) != len(at.Spans) {
+		return nil, fmt.Errorf("%d provenances for %d spans", len(prov), len(at.Spans))
+	}
 	tr := &types.Trace{TraceID: id}
 	for i, as := range at.Spans {
 		data := map[string]any{}
@@ -106,18 +212,9 @@ func c11Build(cfg config.Config, at c11Trace, noise bool, id string) (*types.Tra
 			data["name"] = fmt.Sprintf("op-%d", i)
 			data["root.looks_like_a_prefix"] = "n/a"
 		}
-		var p types.Payload
-		if noise && i%2 == 1 {
-			raw, err := msgpack.Marshal(data)
-			if err != nil {
-				return nil, err
-			}
-			p = types.NewPayload(cfg, nil)
-			if err := p.UnmarshalMsgpack(raw); err != nil {
-				return nil, err
-			}
-		} else {
-			p = types.NewPayload(cfg, data)
+		p, err := c11Payload(cfg, data, prov[i], salt+i)
+		if err != nil {
+			return nil, err
 		}
 		sp := &types.Span{TraceID: id, Event: &types.Event{Data: p}}
 		if at.Root == i+1 {
@@ -127,6 +224,19 @@ func c11Build(cfg config.Config, at c11Trace, noise bool, id string) (*types.Tra
 		tr.AddSpan(sp)
 	}
 	return tr, nil
+}
+
+// c11Build: map-built spans; with noise every second span is wire-backed (the
+// concretisation of class vectors, ClassProv in the specification).
+func c11Build(cfg config.Config, at c11Trace, noise bool, id string) (*types.Trace, error) {
+	prov := make([]c11Prov, len(at.Spans))
+	for i := range prov {
+		prov[i] = c11Prov{Kind: "map"}
+		if noise && i%2 == 1 {
+			prov[i] = c11Prov{Kind: "wire"}
+		}
+	}
+	return c11BuildProv(cfg, at, prov, noise, id, 0)
 }
 
 // c11Bank holds one long-lived set of samplers per configuration, created the
@@ -187,6 +297,26 @@ func c11GetSampleRate(s Sampler, tr *types.Trace) (a c11Ask) {
 	return c11Ask{key: key, rate: rate}
 }
 
+// c11Decide asks the way CollectorWorker.makeDecision does: the key fields of the
+// sampler in force at decision time are memoized on every span (all of them on the
+// root span, the plain ones elsewhere), then GetSampleRate.
+func c11Decide(s Sampler, tr *types.Trace) (a c11Ask) {
+	defer func() {
+		if r := recover(); r != nil {
+			a.err = fmt.Sprint(r)
+		}
+	}()
+	allFields, nonRootFields := s.GetKeyFields()
+	for _, sp := range tr.GetSpans() {
+		if sp.IsRoot {
+			sp.Data.MemoizeFields(allFields...)
+		} else {
+			sp.Data.MemoizeFields(nonRootFields...)
+		}
+	}
+	return c11GetSampleRate(s, tr)
+}
+
 // c11Harness binds spec/TraceKey.tla to the five dynsampler-backed samplers.
 type c11Harness struct {
 	bank *c11Bank
@@ -211,7 +341,7 @@ func (h *c11Harness) Reset(init map[string]any) error {
 	if err := json.Unmarshal(raw, &h.vec); err != nil {
 		return fmt.Errorf("vector: %w", err)
 	}
-	if h.vec.Kind != "class" && h.vec.Kind != "pair" {
+	if h.vec.Kind != "class" && h.vec.Kind != "pair" && h.vec.Kind != "prov" {
 		return fmt.Errorf("unknown vector kind %q", h.vec.Kind)
 	}
 	h.out = map[string]any{"evaluated": false}
@@ -228,10 +358,11 @@ func (h *c11Harness) Apply(a map[string]any) error {
 		return err
 	}
 	id := fmt.Sprintf("c11-%d", h.n)
-	class := h.vec.Kind == "class"
-	// class vector: t is the arbitrary member of the class (noise fields, mixed
-	// payload backing), u the normal form. pair vector: both are normal forms.
-	t, err := c11Build(h.bank.mockCfg, h.vec.T, class, id+"-t")
+	class := h.vec.Kind != "pair"
+	// class / prov vector: t is the arbitrary member of the class (noise fields, spans
+	// of the provenances the specification chose), u the normal form built from maps.
+	// pair vector: both are normal forms.
+	t, err := c11BuildProv(h.bank.mockCfg, h.vec.T, h.vec.Prov, class, id+"-t", h.n)
 	if err != nil {
 		return err
 	}
@@ -245,8 +376,10 @@ func (h *c11Harness) Apply(a map[string]any) error {
 	for _, name := range c11SamplerNames {
 		s := samplers[name]
 		// the same sampler object sees u, t, u, t: whatever one trace leaves behind
-		// in the key builder must not show in the next key
-		asks := []c11Ask{c11GetSampleRate(s, u), c11GetSampleRate(s, t), c11GetSampleRate(s, u), c11GetSampleRate(s, t)}
+		// in the key builder must not show in the next key. First round: the payloads
+		// as they came in; second round: as the collector asks (decision-time
+		// MemoizeFields first), which must not change what the key builder sees.
+		asks := []c11Ask{c11GetSampleRate(s, u), c11GetSampleRate(s, t), c11Decide(s, u), c11Decide(s, t)}
 		ok := true
 		for _, a := range asks {
 			if a.err != "" {
@@ -263,15 +396,14 @@ func (h *c11Harness) Apply(a map[string]any) error {
 		if asks[0].rate >= 1 && asks[1].rate >= 1 && asks[2].rate >= 1 && asks[3].rate >= 1 {
 			rateOK = append(rateOK, name)
 		}
-		if asks[1].key == asks[0].key {
-			if class {
-				same = append(same, name)
-			}
-		} else if !class {
+		if class && asks[1].key == asks[0].key && asks[3].key == asks[2].key {
+			same = append(same, name)
+		}
+		if !class && asks[1].key != asks[0].key && asks[3].key != asks[2].key {
 			differ = append(differ, name)
 		}
-		if (class && asks[1].key != asks[0].key) || (!class && asks[1].key == asks[0].key) || asks[0].key != asks[2].key || asks[1].key != asks[3].key {
-			detail[name] = map[string]any{"key_u": asks[0].key, "key_t": asks[1].key, "key_u_again": asks[2].key, "key_t_again": asks[3].key}
+		if (class && (asks[1].key != asks[0].key || asks[3].key != asks[2].key)) || (!class && (asks[1].key == asks[0].key || asks[3].key == asks[2].key)) || asks[0].key != asks[2].key || asks[1].key != asks[3].key {
+			detail[name] = map[string]any{"key_u": asks[0].key, "key_t": asks[1].key, "key_u_decided": asks[2].key, "key_t_decided": asks[3].key, "t_as_seen_after_decision": c11Seen(t)}
 		}
 	}
 	h.out = map[string]any{"evaluated": true, "sameSet": same, "differSet": differ, "stableSet": stable, "rateOKSet": rateOK}
@@ -283,6 +415,21 @@ func (h *c11Harness) Apply(a map[string]any) error {
 		h.out["panic"] = panics
 	}
 	return nil
+}
+
+// c11Seen: what Exists/Get deliver for the data fields of each span (diagnostics only)
+func c11Seen(tr *types.Trace) []map[string]any {
+	var out []map[string]any
+	for _, sp := range tr.GetSpans() {
+		m := map[string]any{}
+		for _, f := range []string{"a", "b"} {
+			if sp.Data.Exists(c11FieldName[f]) {
+				m[f] = fmt.Sprint(sp.Data.Get(c11FieldName[f]))
+			}
+		}
+		out = append(out, m)
+	}
+	return out
 }
 
 func (h *c11Harness) Project() (any, error) {
